@@ -4,7 +4,7 @@ from contracts import c01_lp  # noqa
 from props._generic import run_property, replay_with_driver
 
 LEVEL = "other"
-KEYS = ["_fix_type", "_reaction_to_dict", "Reaction.bounds@setter", "Reaction.lower_bound@setter", "Reaction.upper_bound@setter"]
+KEYS = ["_fix_type", "_update_optional", "_reaction_to_dict", "_metabolite_to_dict", "_gene_to_dict", "Reaction.bounds@setter", "Reaction.lower_bound@setter", "Reaction.upper_bound@setter"]
 
 
 def lemmas():
@@ -59,10 +59,14 @@ def fallback(key, case, rec):
 
 def run(rep):
     run_property(rep, KEYS, hooks=C.HOOKS, lemmas=lemmas, fallback=fallback, explanation=(
-        "Deductive part is thin and stated as such: dict._fix_type is proved to be the identity on str/float/bool/int and to map None to "
-        "'' ; dict._reaction_to_dict is proved to write identifier, name and rule as they are and each bound as the float itself exactly "
-        "when it is finite and as a string exactly when it is infinite or NaN (what the JSON encoder needs), for every pair of bounds, "
-        "relative to the assumed frame contract of _update_optional (touches only the optional keys); the bounds setters the loaders rely on are proved (C01 kernel) and the protocol lemma `assigning both bounds at once "
+        "Deductive part (the writer half of the dict form): dict._fix_type is proved to be the identity on str/float/bool/int, to map "
+        "None to '' and a dictionary to a NEW dictionary with the same keys and value objects; dict._update_optional is proved, for "
+        "its four instantiations (reaction, metabolite, gene, model key lists; None-able attributes in both shapes), to write an "
+        "optional entry exactly when the attribute is not None and differs from its default, with _fix_type(attribute) as value, and "
+        "to leave every other entry alone; _reaction_to_dict, _metabolite_to_dict and _gene_to_dict are proved against these "
+        "contracts: required entries under the right keys in the documented order, each bound written as the float itself exactly "
+        "when it is finite and as a string exactly when it is infinite or NaN (what the JSON encoder needs), optional entries exactly "
+        "as above; the bounds setters the loaders rely on are proved (C01 kernel) and the protocol lemma `assigning both bounds at once "
         "succeeds for every valid pair` follows from the setter contract (the one-at-a-time protocol of the original loaders did not: "
         "fixed in /repo). The codecs (json, ruamel.yaml, pickle), the dict assembly loops over heterogeneous values and the gene-rule "
         "text are outside the verifier's reach: bounded driver (snapshot equality incl. the solver problem, optimum and idempotence for "
